@@ -522,6 +522,7 @@ func (c *Ctx) orderInsensitive(fi *load.FuncInfo, g *cfgx.Graph, rs *ast.RangeSt
 	if uniqueKey {
 		return true, "unique match by key: the body is skipped unless the range key equals a loop-invariant value", ""
 	}
+	inlining := map[*ast.FuncLit]bool{}
 	var walk func(n ast.Node)
 	walk = func(n ast.Node) {
 		ast.Inspect(n, func(m ast.Node) bool {
@@ -634,6 +635,16 @@ func (c *Ctx) orderInsensitive(fi *load.FuncInfo, g *cfgx.Graph, rs *ast.RangeSt
 				if astx.Builtin(info, x) == "delete" {
 					idioms["set building"] = true
 					return true
+				}
+				// a local closure (flush := func() {…}) called in the loop: its body runs here
+				if fid, ok := ast.Unparen(x.Fun).(*ast.Ident); ok {
+					if d := uniqueDef(info, fi.Node(), fid); d != nil {
+						if lit, ok := ast.Unparen(d).(*ast.FuncLit); ok && !inlining[lit] {
+							inlining[lit] = true
+							walk(lit.Body)
+							delete(inlining, lit)
+						}
+					}
 				}
 				var cal *load.FuncInfo
 				if fn := astx.Callee(info, x); fn != nil {
